@@ -225,7 +225,10 @@ class _CFIProcedureTracker:
                         directive == ".cfi_endproc"
                         and procedure_start is not None
                     ):
-                        procedure_end = (idx, offset)
+                        # The interval is half-open, but an insertion at the
+                        # offset of the .cfi_endproc lands before it and so is
+                        # still inside the procedure.
+                        procedure_end = (idx, offset + 1)
                         self._tree.addi(procedure_start, procedure_end)
 
     def in_procedure(self, block_idx: int, offset: int) -> bool:
